@@ -90,6 +90,11 @@ def extras(fmt, add):
     for n in (4, 5):
         add(nsteps=n)
         add(nsteps=n, start=2)
+    if fmt in ('uamiv', 'lateral_boundary'):
+        # hour-24 stamping of steps that end at midnight
+        for n in (1, 2, 3):
+            add(nsteps=n, start=6, end24=True)
+            add(nsteps=n, start=2, end24=True)
     if fmt == 'uamiv':
         # 2-D files whose grid header carries nz = 0 (usual for low-level emissions)
         for n in (1, 2, 3):
@@ -131,8 +136,9 @@ def materialize(d):
     nx, ny, nz = d['shape']
     start, hour = STARTS[d['start']]
     n = d['nsteps']
-    steps = rf.steps_for(start, hour, n)
-    r = {'fmt': fmt, 'nx': nx, 'ny': ny, 'nz': nz, 'steps': steps, 'start': (start, hour)}
+    steps = rf.steps_for(start, hour, n, 'h24' if d.get('end24') else 'next')
+    r = {'fmt': fmt, 'nx': nx, 'ny': ny, 'nz': nz, 'steps': steps, 'start': (start, hour),
+         'end24': bool(d.get('end24'))}
     # the true instants (YYYYJJJ, hour) of every step begin and end
     inst = []
     dd, hh = start, hour
@@ -183,6 +189,26 @@ def encode(r):
     return rf.CODECS[r['fmt']][0](r)
 
 
+def norm_flag(flag):
+    """(YYYYJJJ, 240000) and (next day, 0) denote the same instant: canonical form is the latter"""
+    d, t = int(flag[0]), int(flag[1])
+    if t == 240000:
+        d2, _ = rf.add_hours(d, 23, 1)
+        return (d2, 0)
+    return (d, t)
+
+
+def norm_step(step):
+    """the same for a (begin date, begin hour, end date, end hour) record with 5-digit dates"""
+    bd, bh, ed, eh = step
+    if float(eh) == 24.0:
+        yy = int(ed) // 1000
+        full = (1900 + yy if yy >= 70 else 2000 + yy) * 1000 + int(ed) % 1000
+        d2, _ = rf.add_hours(full, 23, 1)
+        return (bd, float(bh), rf.yyjjj(d2), 0.0)
+    return (bd, float(bh), ed, float(eh))
+
+
 def expected_tflag(r):
     """(YYYYJJJ, HHMMSS) begin flags and end flags from the true instants"""
     def window(d):
@@ -191,6 +217,9 @@ def expected_tflag(r):
         return (1900 + yy if yy >= 70 else 2000 + yy) * 1000 + jjj
     b = [(window(d), h * 10000) for d, h in r['instants'][:-1]]
     e = [(window(d), h * 10000) for d, h in r['instants'][1:]]
+    if r.get('end24'):
+        # hour-24 stamping: a step that ends at midnight carries (its own day, 240000)
+        e = [(bb[0], 240000) if (ee[1] == 0 and ee[0] != bb[0]) else ee for bb, ee in zip(b, e)]
     return b, e
 
 
